@@ -207,20 +207,15 @@ func invalidTexts(rng *gen.RNG, emit func(text, class string)) {
 func init() {
 	register(&Prop{
 		ID: "C07",
-		Rule: "for byte strings of every length 0..256 (quick: 0..70 and block boundaries) x content classes: every accepted spelling (padded, unpadded, partially padded; upper, lower, mixed case; leading/trailing space, tab, CR, LF) must decode to exactly those bytes and give identical results at all six generation/validation entry points (HMAC key observed through the hook); invalid texts (characters outside the alphabet incl. U+017F/U+0131/U+212A whose upper-case mapping is a base32 letter, lengths 1/3/6 mod 8, padding in the middle) must be rejected; " +
+		Rule: "for byte strings of every length 0..256 x content classes: every accepted spelling (padded, unpadded, partially padded; upper, lower, mixed case; leading/trailing space, tab, CR, LF) must decode to exactly those bytes and give identical results at all six generation/validation entry points (HMAC key observed through the hook); invalid texts (characters outside the alphabet incl. U+017F/U+0131/U+212A whose upper-case mapping is a base32 letter, lengths 1/3/6 mod 8, padding in the middle) must be rejected; " +
 			"distinct_nontrivial counts distinct (class, text) pairs",
 		Run: func(c *Ctx) {
 			rng := c.RNG.Fork(7)
 			var lens []int
-			if c.Thorough {
+			for rep := 0; rep < c.N(1, 12); rep++ {
 				for n := 0; n <= 256; n++ {
 					lens = append(lens, n)
 				}
-			} else {
-				for n := 0; n <= 70; n++ {
-					lens = append(lens, n)
-				}
-				lens = append(lens, 127, 128, 129, 200, 255, 256)
 			}
 			var cases []spellCase
 			var entries []entryCase
@@ -231,12 +226,12 @@ func init() {
 					for _, s := range sp {
 						cases = append(cases, spellCase{KeyHex: hexs(key), Text: s, Valid: true, Class: "accepted-spelling"})
 					}
-					if n%c.N(7, 2) == 0 || n < 6 {
+					if n%7 == 0 || n < 6 {
 						entries = append(entries, entryCase{KeyHex: hexs(key), Texts: sp})
 					}
 				}
 			}
-			for i := 0; i < c.N(40, 1000); i++ {
+			for i := 0; i < c.N(100, 2000); i++ {
 				invalidTexts(rng, func(text, class string) {
 					cases = append(cases, spellCase{Text: text, Class: class})
 				})
